@@ -34,7 +34,7 @@ theorem negamax_bounds {g : Game P M} (hb : EvalBounded g) :
 theorem root_exact [DecidableEq M] {g : Game P M} (hg : GameOK g) (hb : EvalBounded g) {cfg : Cfg} (hpr : Precise cfg)
     {o : Oracle M} (hnc : NoCancel o) (hord : OrderOK o)
     (p : P) (depth : Int) (hd : 1 ≤ depth) (hov : g.over p = false) (hl : Live g depth.toNat p)
-    (pv : List M) (D : Int) (s : Eng M) (hs : NT D s) :
+    (pv : List M) (D : Int × Bool) (s : Eng M) (hs : NT D s) :
     Sat (pvSearch g cfg o 0 p depth pv (Facts.minEval - 1) (Facts.maxEval + 1) s)
       (fun x => NT D x.2 ∧ x.1.2 = negamax g depth.toNat p ∧ Attains g p depth.toNat x.1) := by
   unfold pvSearch
@@ -70,8 +70,8 @@ theorem analyzeStep_spec [DecidableEq M] {g : Game P M} (hg : GameOK g) (hb : Ev
   have hd : (i + 0).toNat = i.toNat := by simp
   have hl : Live g (i + 0).toNat p := by
     rw [hd]; exact hlive i.toNat (by omega) (by omega)
-  refine Sat.mono (root_exact hg hb hpr hnc hord p (i + 0) (by omega) hov hl a.ms (i + 0)
-    { s with st := { depth := i + 0 } } ⟨hs, rfl, rfl⟩) ?_
+  refine Sat.mono (root_exact hg hb hpr hnc hord p (i + 0) (by omega) hov hl a.ms (i + 0, false)
+    { s with st := { depth := i + 0 } } ⟨hs, rfl⟩) ?_
   rintro ⟨⟨next, nv⟩, s1⟩ ⟨hnt, hv, hat⟩
   dsimp only at hnt hv hat ⊢
   obtain ⟨m, rest, c, hnext, hap, hval⟩ := hat
@@ -81,7 +81,7 @@ theorem analyzeStep_spec [DecidableEq M] {g : Game P M} (hg : GameOK g) (hb : Ev
   rw [load_nc hnc]
   dsimp only
   simp only [Bool.false_eq_true, if_false]
-  have hdep : s1.st.depth = i := by have := hnt.2.1; omega
+  have hdep : s1.st.depth = i := by have := congrArg Prod.fst hnt.2; dsimp only at this; omega
   have hgood : ∀ (ps bs : Nat), Good g p
       { ms := m :: rest, v := nv, st := Stats.merge s1.st a.st, prevEval := ps, branchSum := bs } := by
     intro ps bs
@@ -92,7 +92,7 @@ theorem analyzeStep_spec [DecidableEq M] {g : Game P M} (hg : GameOK g) (hb : Ev
     have h2 : (i + 0).toNat = i.toNat := hd
     rw [h2] at hv hval
     exact ⟨hv, m, rest, c, rfl, hap, hval⟩
-  have hcan : (Stats.merge s1.st a.st).canceled = false := hnt.2.2
+  have hcan : (Stats.merge s1.st a.st).canceled = false := congrArg Prod.snd hnt.2
   have hdm : (Stats.merge s1.st a.st).depth = i := hdep
   repeat' split
   all_goals first
